@@ -26,24 +26,30 @@ COLS = (0, 1)
 TIMES = (0, 100, 250, 400)
 KINDS = (None, 50, 500)
 ATOMS = [(c, t, k) for c in COLS for t in TIMES for k in KINDS]
+# second palette: holds of length 0 (a hold all the same: "the last note of a column keeps its kind and length")
+KINDS0 = (None, 0, 500)
+ATOMS0 = [(c, t, k) for c in COLS for t in TIMES for k in KINDS0]
+PALETTES = {"std": ATOMS, "zero": ATOMS0}
 GAPS = (0, 50, 150)
 THRS = (0, 100)
 TOL = 1e-9
 
 
 def plan(tier):
-    """[(game, max notes, orders)]"""
+    """[(game, max notes, orders, palette)]"""
     if tier == "quick":
-        return [("osu", 3, ("rev",)), ("osu", 2, ("fwd",)), ("bms", 2, ("fwd", "rev")), ("sm", 2, ("fwd", "rev")), ("qua", 2, ("rev",)), ("o2j", 2, ("rev",))]
-    return [("osu", 4, ("rev",)), ("osu", 3, ("fwd",)), ("bms", 3, ("fwd", "rev")), ("sm", 3, ("fwd", "rev")), ("qua", 3, ("fwd", "rev")), ("o2j", 3, ("fwd", "rev"))]
+        return [("osu", 3, ("rev",), "std"), ("osu", 2, ("fwd",), "std"), ("bms", 2, ("fwd", "rev"), "std"), ("sm", 2, ("fwd", "rev"), "std"), ("qua", 2, ("rev",), "std"), ("o2j", 2, ("rev",), "std"),
+                ("osu", 2, ("fwd", "rev"), "zero"), ("qua", 2, ("fwd",), "zero")]
+    return [("osu", 4, ("rev",), "std"), ("osu", 3, ("fwd",), "std"), ("bms", 3, ("fwd", "rev"), "std"), ("sm", 3, ("fwd", "rev"), "std"), ("qua", 3, ("fwd", "rev"), "std"), ("o2j", 3, ("fwd", "rev"), "std"),
+            ("osu", 3, ("fwd", "rev"), "zero"), ("qua", 3, ("fwd", "rev"), "zero"), ("sm", 2, ("fwd",), "zero"), ("bms", 2, ("fwd",), "zero"), ("o2j", 2, ("fwd",), "zero")]
 
 
 def bound(tier, seed):
     return dict(
-        plan=[dict(game=g, max_notes=n, row_orders=list(o)) for g, n, o in plan(tier)],
+        plan=[dict(game=g, max_notes=n, row_orders=list(o), palette=p) for g, n, o, p in plan(tier)],
         columns=list(COLS) + ["2 (always empty)"],
         times=list(TIMES),
-        kinds=["hit", "hold 50", "hold 500"],
+        kinds=dict(std=["hit", "hold 50", "hold 500"], zero=["hit", "hold 0", "hold 500"]),
         gaps=list(GAPS),
         thresholds=list(THRS),
     )
@@ -61,7 +67,7 @@ CHUNK = 60
 
 def roots(tier, seed):
     rs = []
-    for pi, (g, n, orders) in enumerate(plan(tier)):
+    for pi, (g, n, orders, pal) in enumerate(plan(tier)):
         tot = len(multisets(n))
         for s in range(0, tot, CHUNK):
             rs.append(dict(plan=pi, start=s, stop=min(tot, s + CHUNK)))
@@ -72,11 +78,11 @@ _MS = {}
 
 
 def explore(root, tier, ctx):
-    g, n, orders = plan(tier)[root["plan"]]
+    g, n, orders, pal = plan(tier)[root["plan"]]
     if n not in _MS:
         _MS[n] = multisets(n)
     for i in range(root["start"], root["stop"]):
-        notes = [ATOMS[a] for a in _MS[n][i]]
+        notes = [PALETTES[pal][a] for a in _MS[n][i]]
         for order in orders:
             for gap in GAPS:
                 for thr in THRS:
